@@ -233,6 +233,8 @@ def case_collect(R: Runner, inp: dict[str, Any]) -> None:
     want_c = [e for e in E if nilk(e) is not None]
     cs = R.both("compact", x, k)
     cl = R.T("compact", f"compact: i => {lam}", x=x)
+    R.locals_agree("compact", "compact: i => i[t]", cl, k, "lambda-sees-template-local-variable",
+                   sites=("assign", "with"), x=x)
     qc = lambda: "missing-key" if any(getk(e) is MISSING for e in E) else "nil-value"  # noqa: E731
     R.expect("compact", "drops-items-with-nil-property", cs, want_c, qc)
     R.expect("compact", "drops-items-with-nil-property-lambda", cl, want_c, qc)
@@ -248,6 +250,8 @@ def case_collect(R: Runner, inp: dict[str, Any]) -> None:
         # form one class (CTS); whether nil joins that class is not documented -> both accepted
         us = R.both("uniq", x, k)
         ul = R.T("uniq", f"uniq: i => {lam}", x=x)
+        R.locals_agree("uniq", "uniq: i => i[t]", ul, k, "lambda-sees-template-local-variable",
+                       sites=("for", "macro"), x=x)
         wants = [_classes(E, getk), _classes(E, lambda e: MISSING if nilk(e) is None else getk(e))]
         for nm, res in (("one-item-per-property-value", us), ("one-item-per-property-value-lambda", ul)):
             R.expect_ok("uniq", "total-on-hashes", res)
@@ -271,6 +275,8 @@ def case_collect(R: Runner, inp: dict[str, Any]) -> None:
             q = _sum_q(vals)
             ss = R.both("sum", x, k, cls=q)
             sl = R.T("sum", f"sum: i => {lam}", cls=q, x=x)
+            R.locals_agree("sum", "sum: i => i[t]", sl, k, "lambda-sees-template-local-variable",
+                           sites=("assign", "capture"), x=x)
             _sum_check(R, "exact-sum-of-property", ss, vals, q)
             _sum_check(R, "exact-sum-of-property-lambda", sl, vals, q)
             if ss.ok and sl.ok:
